@@ -332,7 +332,11 @@ type Info struct {
 func (i *Info) ChannelCounts() map[string]uint64 {
 	counts := make(map[string]uint64)
 	for k, v := range i.Statistics.ChannelMessageCounts {
-		channel := i.Channels[k]
+		channel, ok := i.Channels[k]
+		if !ok {
+			// statistics may name channels the summary does not list
+			continue
+		}
 		counts[channel.Topic] = v
 	}
 	return counts
